@@ -128,6 +128,10 @@ def compare_metrics(got, want, tag=''):
                 rtol = 1e-9
                 if k in ('sharpe_ratio',) and sd is not None and sd < 1e-9:
                     rtol = 1e-5
+                if k == 'calmar_ratio' and isinstance(want.get('max_drawdown'), float) and want['max_drawdown'] != 0:
+                    # Calmar divides by the drawdown: a drawdown that is itself rounding dust of the equity samples
+                    # (1e-16 relative) makes the quotient ill-conditioned; the tolerance follows the conditioning
+                    rtol = max(rtol, 16 * 2.3e-16 / abs(want['max_drawdown'] / 100))
                 ok = ok or (math.isfinite(gf) and abs(gf - a) <= rtol * max(1.0, abs(a), abs(gf)) + 1e-12)
         if not ok:
             vios.append((f'C16:metrics:{k}', f'reported {g!r}, definition gives {w!r} {tag}'))
